@@ -140,3 +140,39 @@ class SinkProbe(edzed.SBlock):
     def _event(self, etype, data):
         self.sink.append((self.name, etype, dict(data)))
         return ('probe', self.name, len(self.sink))
+
+
+class WallClock:
+    """time.time() as seen by edzed: EPOCH + loop time + offset (offset models downtime / clock jumps).
+    Installed by rebinding the module-global name 'time' in the edzed modules that read the clock."""
+    EPOCH = 1_700_000_000.0
+    MODULES = ('edzed.addons', 'edzed.fsm', 'edzed.simulator', 'edzed.utils.looptimes')
+
+    def __init__(self):
+        self.offset = 0.0
+        self._saved = {}
+
+    def time(self):
+        try:
+            lt = asyncio.get_running_loop().time()
+        except RuntimeError:
+            lt = self.frozen_loop_time
+        return self.EPOCH + lt + self.offset
+
+    frozen_loop_time = 0.0
+
+    def __enter__(self):
+        import importlib
+        import types
+        ns = types.SimpleNamespace(time=self.time)
+        for name in self.MODULES:
+            mod = importlib.import_module(name)
+            self._saved[name] = mod.time
+            mod.time = ns
+        return self
+
+    def __exit__(self, *exc):
+        import importlib
+        for name, t in self._saved.items():
+            importlib.import_module(name).time = t
+        return False
